@@ -49,6 +49,15 @@ Proof.
   - inversion H; subst. rewrite Z.eqb_refl, Pos.eqb_refl. reflexivity.
 Qed.
 
+Lemma atom_eqb_eq a b : atom_eqb a b = true <-> a = b.
+Proof.
+  destruct a, b; cbn [atom_eqb]; split; intros H; try discriminate.
+  - apply Z.eqb_eq in H. subst; reflexivity.
+  - inversion H; subst. apply Z.eqb_refl.
+  - apply String.eqb_eq in H. subst; reflexivity.
+  - inversion H; subst. apply String.eqb_refl.
+Qed.
+
 Lemma cell_eqb_eq a b : cell_eqb a b = true <-> a = b.
 Proof.
   destruct a, b; cbn [cell_eqb]; split; intros H; try discriminate; try reflexivity.
@@ -60,10 +69,12 @@ Proof.
   - inversion H; subst. apply Bool.eqb_reflx.
   - apply String.eqb_eq in H. subst; reflexivity.
   - inversion H; subst. apply String.eqb_refl.
+  - apply andb_true_iff in H as [H1 H2]. apply atom_eqb_eq in H1. apply atom_eqb_eq in H2. subst; reflexivity.
+  - inversion H; subst. apply andb_true_iff. split; apply atom_eqb_eq; reflexivity.
   - apply andb_true_iff in H as [H1 H2]. apply Z.eqb_eq in H1. apply Z.eqb_eq in H2. subst; reflexivity.
   - inversion H; subst. rewrite !Z.eqb_refl. reflexivity.
-  - apply andb_true_iff in H as [H1 H2]. apply Z.eqb_eq in H1. apply Z.eqb_eq in H2. subst; reflexivity.
-  - inversion H; subst. rewrite !Z.eqb_refl. reflexivity.
+  - apply Z.eqb_eq in H. subst; reflexivity.
+  - inversion H; subst. apply Z.eqb_refl.
   - apply Z.eqb_eq in H. subst; reflexivity.
   - inversion H; subst. apply Z.eqb_refl.
 Qed.
@@ -91,6 +102,7 @@ Proof.
   destruct (forallb is_num_or_none l).
   { destruct (existsb out_int64 l); [discriminate|]. intros H; inversion H; apply map_length. }
   destruct (forallb is_ts l); [intros H; inversion H; reflexivity|].
+  destruct (forallb is_td l); [intros H; inversion H; reflexivity|].
   destruct c0;
     try (match goal with |- (if ?b then _ else _) = _ -> _ => destruct b end; intros H; inversion H; reflexivity).
 Qed.
@@ -350,6 +362,7 @@ Proof.
     destruct (existsb is_flt l) eqn:E5; [rewrite andb_true_r in S2; discriminate|].
     rewrite (all_num_no_flt_int l E3 S1 E5) in E2. discriminate. }
   destruct (forallb is_ts l); [intros H; inversion H; reflexivity|].
+  destruct (forallb is_td l); [intros H; inversion H; reflexivity|].
   destruct c0;
     try (match goal with |- (if ?b then _ else _) = _ -> _ => destruct b end; intros H; inversion H; reflexivity).
 Qed.
@@ -1089,15 +1102,15 @@ Proof.
     unfold symbol_of_row.
     destruct (type_of_cell b) as [t|e1|] eqn:T; cbn [tbind]; [| |discriminate].
     2:{ intros H. inversion H; subst.
-        destruct b as [|[]| | | | | |]; cbn [type_of_cell] in T;
+        destruct b as [|[]| | | | | | |]; cbn [type_of_cell] in T;
           repeat match type of T with context [match ?x with _ => _ end] => destruct x end; inversion T; reflexivity. }
     destruct (convert_to_int_or_none c) as [l1|e1|] eqn:C1; cbn [tbind]; [| |discriminate].
     2:{ intros H. inversion H; subst.
-        destruct c as [|[]| | | | | |]; cbn [convert_to_int_or_none Z_of_f64] in C1;
+        destruct c as [|[]| | | | | | |]; cbn [convert_to_int_or_none Z_of_f64] in C1;
           repeat match type of C1 with context [if ?x then _ else _] => destruct x end; inversion C1; reflexivity. }
     destruct (convert_to_int_or_none d) as [l2|e1|] eqn:C2; cbn [tbind]; [| |discriminate].
     2:{ intros H. inversion H; subst.
-        destruct d as [|[]| | | | | |]; cbn [convert_to_int_or_none Z_of_f64] in C2;
+        destruct d as [|[]| | | | | | |]; cbn [convert_to_int_or_none Z_of_f64] in C2;
           repeat match type of C2 with context [if ?x then _ else _] => destruct x end; inversion C2; reflexivity. }
     destruct (rows_to_symbols nm ty lg ld eq cd) as [rs|e1|] eqn:R; cbn [tbind]; [discriminate| |discriminate].
     intros H. inversion H; subst. apply (IH _ _ _ _ _ _ R).
@@ -1299,4 +1312,76 @@ Proof.
   - cbn [app]. destruct (lookup_cell (lname l) (lsubs l)); reflexivity.
   - intros [].
   - intros k _ [].
+Qed.
+
+(* ------------------------------------------------------------------ order of periods and the pairing label <-> value *)
+Lemma span_of_index_labels ix : splabels (span_of_index ix) = ilabels ix.
+Proof. unfold span_of_index. destruct (is_time_index (ikd ix)); reflexivity. Qed.
+
+Lemma span_of_index_kind ix :
+  spkind (span_of_index ix) = if is_time_index (ikd ix) then SPandas (ikd ix) (idt ix) else SList.
+Proof. unfold span_of_index. destruct (is_time_index (ikd ix)); reflexivity. Qed.
+
+Lemma is_time_index_spec k :
+  is_time_index k = true <-> k = KDatetimeIndex \/ k = KMultiIndex \/ k = KPeriodIndex \/ k = KTimedeltaIndex.
+Proof. destruct k; cbn; split; intros H; try discriminate; auto; destruct H as [H|[H|[H|H]]]; discriminate. Qed.
+
+(* a span that is a pandas index object is used as the index as it is; one of the four kinds comes back as the same object *)
+Lemma pandas_span_roundtrip k d ls :
+  pd_index (mkSpan (SPandas k d) ls) = Some (mkIndex k d ls) /\
+  (is_time_index k = true -> span_of_index (mkIndex k d ls) = mkSpan (SPandas k d) ls) /\
+  (is_time_index k = false -> span_of_index (mkIndex k d ls) = mkSpan SList ls).
+Proof. unfold span_of_index. cbn [ikd idt ilabels]. split; [reflexivity|]. split; intros ->; reflexivity. Qed.
+
+Lemma cast_all_rowwise d cs : forall cs', cast_all d cs = TOk cs' -> Forall2 (fun c c' => np_cast d c = TOk c') cs cs'.
+Proof.
+  induction cs as [|c r IH]; intros cs' H; cbn [cast_all] in H.
+  - inversion H. constructor.
+  - destruct (np_cast d c) as [c'| |] eqn:C; cbn [tbind] in H; try discriminate.
+    destruct (cast_all d r) as [r'| |] eqn:R; cbn [tbind] in H; try discriminate.
+    inversion H; subst. constructor; [assumption|apply IH; reflexivity].
+Qed.
+
+(* from_dataframe of ANY table: row i of the table is period i of the model — the span is the index in table order (same
+   length, same order, duplicates kept) and the i-th cell of a variable is the cast of the i-th cell of its column *)
+Lemma from_table_rowwise c t m :
+  from_table c t = TOk m ->
+  splabels (fspan m) = ilabels (tindex t) /\
+  spkind (fspan m) = (if is_time_index (ikd (tindex t)) then SPandas (ikd (tindex t)) (idt (tindex t)) else SList) /\
+  forall k s col, In (k, s) (fvars m) -> find_col k (tcols t) = Some col ->
+    Forall2 (fun x y => np_cast (cdtype c) x = TOk y) (pccells col) (scells s).
+Proof.
+  intros H. destruct (from_table_char c t m H) as [Hs [_ [_ [_ [Hv _]]]]].
+  rewrite Hs. split; [apply span_of_index_labels|]. split; [apply span_of_index_kind|].
+  intros k s col Hin Hc. destruct (Hv k s Hin) as [_ C]. unfold source_cells in C. rewrite Hc in C.
+  apply cast_all_rowwise. exact C.
+Qed.
+
+(* the round trip, position by position, for every kind of span *)
+Lemma from_to_order_and_pairing st it ii m ix c :
+  wf_model m (length (splabels (fspan m))) -> pd_index (fspan m) = Some ix -> span_stable (fspan m) = true ->
+  cnames c = fnames m ->
+  (ii = true \/ forall k, In k (fnames m) -> starts_underscore k = false) ->
+  (cstrict c = true -> st = false /\ it = false) ->
+  (forall k, In k (fnames m) -> mem_s k init_params = false) ->
+  (forall k s, In k (fnames m) -> assoc_s k (fvars m) = Some s ->
+     sdt s = cdtype c /\ sdt s <> NObj /\ forallb (cell_has_dtype (cdtype c)) (scells s) = true) ->
+  exists t m', model_to_table st it ii m = TOk t /\ from_table c t = TOk m' /\
+    length (splabels (fspan m')) = length (splabels (fspan m)) /\
+    (forall i, nth_error (splabels (fspan m')) i = nth_error (splabels (fspan m)) i) /\
+    (forall k s, In k (fnames m) -> assoc_s k (fvars m) = Some s ->
+       exists s', assoc_s k (fvars m') = Some s' /\ forall i, nth_error (scells s') i = nth_error (scells s) i) /\
+    (forall k d, spkind (fspan m) = SPandas k d -> is_time_index k = true -> fspan m' = fspan m).
+Proof.
+  intros W H S Hc Hii Hstrict Hparams Htyped.
+  destruct (from_to_roundtrip_same_dtype st it ii m ix c W H S Hc Hii Hstrict Hparams Htyped)
+    as [t [m' [E1 [E2 [L [_ [V _]]]]]]].
+  exists t, m'. split; [assumption|]. split; [assumption|]. split; [rewrite L; reflexivity|].
+  split; [intros i; rewrite L; reflexivity|]. split.
+  - intros k s Hk Hs. exists s. split; [rewrite (V k Hk); assumption|reflexivity].
+  - intros k d K T.
+    rewrite (model_to_table_spec st it ii m ix W H) in E1. inversion E1; subst t. clear E1.
+    destruct (from_table_rowwise c _ m' E2) as [R1 [R2 _]]. cbn [tindex] in R1, R2.
+    unfold pd_index in H. rewrite K in H. inversion H; subst ix. cbn [ikd idt ilabels] in R1, R2. rewrite T in R2.
+    destruct (fspan m') as [k' l'], (fspan m) as [k0 l0]. cbn [spkind splabels] in *. subst. reflexivity.
 Qed.
